@@ -10,6 +10,7 @@ import (
 	"strings"
 
 	"github.com/parquet-go/parquet-go"
+	"github.com/parquet-go/parquet-go/format"
 )
 
 // C18: encrypted files round-trip, leak no plaintext and authenticate every module.
@@ -31,6 +32,7 @@ type c18Scenario struct {
 	At     int    `json:"at"`     // data page index the tamper applies to
 	Path   string `json:"path"`   // seq | seek | readseek (read one batch, then seek forward past a whole page)
 	Fid    string `json:"fid"`    // explicit | default: who chooses the file identifier
+	Reuse  bool   `json:"reuse"`  // the file is the second one of a writer reused through Reset
 	Index  bool   `json:"index"`  // open with the page index
 }
 
@@ -87,6 +89,26 @@ func c18Write(sc *c18Scenario, fileID byte) ([]byte, error) {
 	}
 	buf := new(bytes.Buffer)
 	w := parquet.NewGenericWriter[c18Row](buf, opts...)
+	if sc.Reuse {
+		// an earlier file with two row groups, then Reset
+		for g := 0; g < 2; g++ {
+			rows := make([]c18Row, c18PageRows)
+			for i := range rows {
+				rows[i] = c18RowOf(1000 + i)
+			}
+			if _, err := w.Write(rows); err != nil {
+				return nil, err
+			}
+			if err := w.Flush(); err != nil {
+				return nil, err
+			}
+		}
+		if err := w.Close(); err != nil {
+			return nil, err
+		}
+		buf.Reset()
+		w.Reset(buf)
+	}
 	id := 0
 	for g := 0; g < c18Groups; g++ {
 		for p := 0; p < c18Pages; p++ {
@@ -236,7 +258,23 @@ func c18Main(args []string) error {
 		}
 		// ---- round trip
 		rows, rerr, pan, msg := guardRead(data, keys)
-		e := ev{"path": sc.Path, "rows": ints(rows), "want": wantRound, "err": b2i(rerr != nil), "panic": b2i(pan)}
+		// what a reader with the keys learns about the columns of every row group
+		meta := []int{}
+		guard(func() {
+			if f, err := parquet.OpenFile(bytes.NewReader(data), int64(len(data)), parquet.WithDecryption(keys)); err == nil {
+				for _, rg := range f.Metadata().RowGroups {
+					ok := true
+					for ci, cc := range rg.Columns {
+						want := []string{"id", "secret", "note"}[ci]
+						codecOK := (sc.Codec == "none") == (cc.MetaData.Codec == format.Uncompressed)
+						ok = ok && len(cc.MetaData.PathInSchema) == 1 && cc.MetaData.PathInSchema[0] == want && codecOK && len(cc.MetaData.Encoding) > 0 &&
+							(cc.MetaData.Type == format.Int64) == (ci == 0)
+					}
+					meta = append(meta, b2i(ok))
+				}
+			}
+		})
+		e := ev{"path": sc.Path, "rows": ints(rows), "want": wantRound, "err": b2i(rerr != nil), "panic": b2i(pan), "meta": ints(meta)}
 		if rerr != nil {
 			e["msg"] = rerr.Error()
 		} else if pan {
